@@ -10,4 +10,6 @@ CONSTANTS
   Mode = "schemas"
   Stride = 17
   Offset = 0
+  FocusStride = 3
+  FocusOffset = 0
 CHECK_DEADLOCK FALSE
